@@ -589,7 +589,12 @@ func (ctx *Context) evaluate() {
 				return
 			}
 			stackPush(dict.V())
-		case typePushComputed, typePushFunction:
+		case typePushComputed:
+			// every execution of `&name = expr` creates a new computed value: text and compiled
+			// code are shared with the instruction's constant, the attribute space is not
+			cd := code.Value.(*VMValue).Value.(*ComputedData)
+			stackPush(NewComputedValRaw(&ComputedData{Expr: cd.Expr, code: cd.code, codeIndex: cd.codeIndex}))
+		case typePushFunction:
 			val := code.Value.(*VMValue)
 			stackPush(val)
 		case typePushNull:
